@@ -485,6 +485,25 @@ pub fn run(cfg: &Cfg, rep: &mut Report) {
                 fixed.push(Variable::from(vec![Variable::Float(f)]));
             }
         }
+        // floats around the limits of integer types and around every power of ten (where a rendering may switch between
+        // plain and exponent form, or take a detour through an integer)
+        let mut edge: Vec<f64> = Vec::new();
+        for e in [15i32, 16, 17, 18, 19, 20, 21, 22, -5, -6, -7, -8] {
+            let x = 10f64.powi(e);
+            edge.extend([x, f64::from_bits(x.to_bits() + 1), f64::from_bits(x.to_bits() - 1), x * 9.3, x * 1.5, x * 9.999999999999999]);
+        }
+        for k in [24u32, 31, 32, 52, 53, 54, 62, 63, 64, 65, 100] {
+            let x = 2f64.powi(k as i32);
+            edge.extend([x, f64::from_bits(x.to_bits() + 1), f64::from_bits(x.to_bits() - 1), x + 2048.0, x * 1.000001]);
+        }
+        edge.extend([9.3e18, 9.5e18, 9.223372036854775e18, 9.223372036854777e18, 1.8446744073709552e19, 4.2e9, 2147483648.5, 0.1 + 0.2, 1.0 / 3.0, 123456789012345680.0]);
+        for x in edge {
+            for v in [x, -x] {
+                fixed.push(Variable::Float(v));
+                fixed.push(Variable::from(vec![Variable::Float(v), Variable::Int(1)]));
+                fixed.push(Variable::Tuple(Arc::from([Variable::Float(v), Variable::Float(-v)])));
+            }
+        }
         for v in &fixed {
             check_value(v, rep);
         }
